@@ -347,6 +347,11 @@ func Encode(req int, op Op, nowNs int64) *Wire {
 				if ee.hasV {
 					exp["__name__"] = "value"
 					fmt.Fprintf(&b, " value=%s %d\n", strconv.FormatFloat(ee.val, 'f', -1, 64), ee.ts/prec.div)
+				} else if ei%4 == 2 && !strings.ContainsAny(ee.line, "\"\\=") {
+					// a log line with further fields (telegraf syslog: message plus severity_code=6i): one log row whose
+					// text is the logfmt rendering of all fields, and no metric row
+					fmt.Fprintf(&b, " message=%s,severity_code=6i %d\n", strconv.Quote(ee.line), ee.ts/prec.div)
+					x.Line = "message=" + strconv.Quote(ee.line) + " severity_code=6"
 				} else {
 					fmt.Fprintf(&b, " message=%s %d\n", strconv.Quote(ee.line), ee.ts/prec.div)
 				}
@@ -608,6 +613,10 @@ func Encode(req int, op Op, nowNs int64) *Wire {
 		nsamp := 1
 		for _, s := range op.Streams {
 			nsamp += len(s.Entries)
+		}
+		if keyRot(op) == 3 {
+			// an idle mutex/block profile: sample types and period, no sample
+			nsamp = 0
 		}
 		for i := 0; i < nsamp; i++ {
 			pr.Sample = append(pr.Sample, &pprofile.Sample{Location: []*pprofile.Location{loc, loc2}, Value: []int64{int64(i + 1), int64(i+1) * 10000000}})
